@@ -1,9 +1,15 @@
 import PeliteModel.Lemmas.Relocs
 import PeliteModel.Lemmas.RelocsFold
+import PeliteModel.Model.Json
+import PeliteModel.Thm.C05
+import PeliteModel.Lemmas.DirsExamples
 /-!
 C14 — base relocations: blocks partition the directory and build/parse round-trips.
 Property theorems only; helper lemmas are in Lemmas/Relocs.lean and Lemmas/RelocsFold.lean, the
-format-side decoder and the predicates `WellFormed` / `Tiles` in Spec/Relocs.lean.
+format-side decoder `Spec.decodeDir`, the format-side well-formedness `Spec.WellFormedDir` (on the bytes) and the
+predicates `WellFormed` (on the blocks the iterator finds) / `Tiles` in Spec/Relocs.lean.  The extraction of the
+directory from an image (`Pe::base_relocs`, src/pe64/base_relocs.rs; model `View.baseRelocsRef`, Model/Json.lean) is
+`C14_extraction`.
 -/
 namespace Pelite.Relocs
 
@@ -99,6 +105,48 @@ example : ¬ WellFormed #[0,0x10,0,0, 10,0,0,0, 1,0x30, 0xAA,0xBB, 0,0x20,0,0, 8
       (fun b => (b.off, b.size)) = [(0, 10), (12, 8)] := by
   decide +kernel
 
+/-! ### well-formedness read off the bytes -/
+
+/-- **The format-side predicate and the iterator-side predicate coincide.**  `Spec.WellFormedDir` is defined by
+recursion on the directory BYTES (header present, `Block Size` ≥ 8, a multiple of four, not beyond what is left; then
+the rest; a tail of fewer than 8 bytes ends it) and knows nothing of the iterator; `WellFormed` says that every block
+the iterator yields is well formed.  For every byte string they are the same condition. -/
+theorem C14_wellFormedDir_iff (data : Bytes) : Spec.WellFormedDir data.toList ↔ WellFormed data := by
+  have := wellFormedDir_from_iff data 0 (Nat.zero_le _)
+  simpa [WellFormed, blocks] using this
+
+/-- `Spec.wellFormedDir` (what the driver prints as `hyp=`) decides `Spec.WellFormedDir`. -/
+theorem C14_wellFormedDir_decides (dir : List UInt8) : Spec.wellFormedDir dir = true ↔ Spec.WellFormedDir dir :=
+  wellFormedDir_decides dir
+
+/-- **Partition, hypothesis on the bytes.**  `C14_blocks_partition` with the format-side hypothesis: for a directory
+that IS a concatenation of well-formed blocks plus a tail shorter than a header (`Spec.WellFormedDir`), the blocks the
+iterator yields tile it — no overlap, no gap, nothing skipped, each block its header plus `(SizeOfBlock - 8) / 2`
+entries. -/
+theorem C14_blocks_partition_dir (data : Bytes) (hwf : Spec.WellFormedDir data.toList) :
+    ∃ e,
+      Tiles 0 (blocks data) e ∧
+      e = ((blocks data).map (·.size)).sum ∧ e ≤ data.size ∧ data.size - e < 8 ∧
+      (∀ i (h : i < (blocks data).length),
+          (blocks data)[i].off = (((blocks data).take i).map (·.size)).sum) ∧
+      (∀ i (h : i + 1 < (blocks data).length),
+          (blocks data)[i + 1].off = (blocks data)[i].off + (blocks data)[i].size) ∧
+      (blocks data).Pairwise (fun a b => a.off + a.size ≤ b.off) ∧
+      (∀ p, p < e → ∃ b ∈ blocks data, b.off ≤ p ∧ p < b.off + b.size) ∧
+      (∀ b ∈ blocks data, b.nwords = (b.size - 8) / 2 ∧
+          b.imageRef.off = b.off ∧ b.imageRef.len = 8 ∧
+          b.wordsRef.off = b.off + 8 ∧ b.wordsRef.off + b.wordsRef.len = b.off + b.size) :=
+  C14_blocks_partition data ((C14_wellFormedDir_iff data).1 hwf)
+
+/-- the format-side hypothesis on the three-block directory of the example above, and its failure on the directory
+with `SizeOfBlock = 10` -/
+example : Spec.WellFormedDir (build [(0x1010, 3), (0x1fff, 10), (0x2000, 3), (0x5000, 3)]).toList ∧
+    ¬ Spec.WellFormedDir [0,0x10,0,0, 10,0,0,0, 1,0x30, 0xAA,0xBB, 0,0x20,0,0, 8,0,0,0] := by
+  refine ⟨(C14_wellFormedDir_decides _).1 (by decide +kernel), fun h => ?_⟩
+  have := (C14_wellFormedDir_decides _).2 h
+  revert this
+  decide +kernel
+
 /-! ### entries: the model against the PE format -/
 
 /-- Every entry is decoded as the PE format prescribes (`Spec.decodeEntry`: type = high 4 bits,
@@ -139,6 +187,12 @@ example : Spec.decodeDir (build [(0x1010, 3), (0x1fff, 10), (0x2000, 3), (0x5000
     [(0x1010, 3), (0x1fff, 10), (0x2000, 3), (0x5000, 3)] := by
   decide +kernel
 
+/-- **Model = format, hypothesis on the bytes**: for a directory that is well formed by the format
+(`Spec.WellFormedDir`) the entries the block iterator reports are the format-side decoding of its bytes. -/
+theorem C14_flat_eq_spec_dir (data : Bytes) (hwf : Spec.WellFormedDir data.toList) :
+    flat data = Spec.decodeDir data.toList :=
+  C14_flat_eq_spec data ((C14_wellFormedDir_iff data).1 hwf)
+
 /-! ### internal iteration = external iteration -/
 
 /-- **The block iterator and `fold` report the same entries**, for every directory (well formed or
@@ -165,6 +219,148 @@ theorem C14_foreach_collects_flat (data : Bytes) :
     | nil => intro acc; rfl
     | cons p l ih => intro acc; rw [List.foldl_cons, ih]; simp
   rw [this]; simp
+
+/-! ### extraction: `Pe::base_relocs` (src/pe64/base_relocs.rs) -/
+
+open Pelite.Pe in
+/-- **The directory handed to the block iterator is the image's relocation directory.**  For every view the crate
+constructs (either format, file or mapped): `base_relocs()` succeeds iff data-directory slot 5 exists and `Pe::slice`
+(`View.at`, characterised by C04 / C05) resolves its RVA to at least `Size` dword-aligned bytes; the directory is then
+the FIRST `Size` bytes of that window — inside the buffer, dword aligned in memory (the `debug_assert!` of
+`BaseRelocs::new` holds: `parse` accepts that placement), byte for byte the image's bytes there.  Everything C14 says
+about `blocks` / `flat` / `fold` of a byte string therefore holds of the extracted directory.  A missing slot and RVA 0
+are `Null`. -/
+theorem C14_extraction (f : Fmt) (k : Kind) (img : Img) (v : View) (hv : fromBytes f k img = .ok v) :
+    (∀ r, v.baseRelocsRef = .ok r ↔
+      ∃ va size s, v.dataDir 5 = some (va, size) ∧ v.at (.rva va) size 4 = .ok s ∧ r = ⟨s.off, size, 4⟩) ∧
+    (∀ r, v.baseRelocsRef = .ok r →
+      RefOK v.img r ∧ r.align = 4 ∧ (∃ va, v.dataDir 5 = some (va, r.len)) ∧
+      ∃ data, v.baseRelocsBytes = .ok data ∧ data.size = r.len ∧
+        (∀ i, i < r.len → byteAt data i = byteAt v.b (r.off + i)) ∧
+        parse ⟨data, v.img.base + r.off⟩ = .ok ()) ∧
+    (v.dataDir 5 = none → v.baseRelocsRef = .err .null) ∧
+    (∀ size, v.dataDir 5 = some (0, size) → v.baseRelocsRef = .err .null) := by
+  have hiff : ∀ r, v.baseRelocsRef = .ok r ↔
+      ∃ va size s, v.dataDir 5 = some (va, size) ∧ v.at (.rva va) size 4 = .ok s ∧ r = ⟨s.off, size, 4⟩ := by
+    intro r
+    unfold View.baseRelocsRef
+    cases hdd : v.dataDir 5 with
+    | none =>
+      simp only
+      constructor
+      · intro h; cases h
+      · rintro ⟨va, size, s, h, _⟩; cases h
+    | some p =>
+      obtain ⟨va, size⟩ := p
+      have e : v.slice va size 4 = v.at (.rva va) size 4 := rfl
+      simp only
+      rw [e]
+      cases hs : v.at (.rva va) size 4 with
+      | ok s =>
+        simp only
+        constructor
+        · intro h; cases h; exact ⟨va, size, s, rfl, hs, rfl⟩
+        · rintro ⟨va', size', s', h, h', rfl⟩; cases h; cases h'.symm.trans hs; rfl
+      | err e' =>
+        simp only
+        constructor
+        · intro h; cases h
+        · rintro ⟨va', size', s', h, h', _⟩; cases h; cases h'.symm.trans hs
+      | panic x =>
+        simp only
+        constructor
+        · intro h; cases h
+        · rintro ⟨va', size', s', h, h', _⟩; cases h; cases h'.symm.trans hs
+      | ub x =>
+        simp only
+        constructor
+        · intro h; cases h
+        · rintro ⟨va', size', s', h, h', _⟩; cases h; cases h'.symm.trans hs
+      | diverge =>
+        simp only
+        constructor
+        · intro h; cases h
+        · rintro ⟨va', size', s', h, h', _⟩; cases h; cases h'.symm.trans hs
+  refine ⟨hiff, ?_, ?_, ?_⟩
+  · intro r h
+    obtain ⟨va, size, s, hdd, hat, rfl⟩ := (hiff r).1 h
+    have hva : va < 4294967296 := by
+      unfold View.dataDir at hdd
+      split at hdd
+      · cases hdd; exact le32_lt _ _
+      · cases hdd
+    obtain ⟨hok, hlen, hal⟩ := C05_at_sound f k img v hv (.rva va) size 4 hva s hat
+    unfold RefOK at hok
+    rw [hal] at hok
+    have hin : s.off + size ≤ v.img.bytes.size := by omega
+    refine ⟨⟨hin, hok.2⟩, rfl, ⟨va, hdd⟩, ?_⟩
+    unfold View.baseRelocsBytes
+    rw [h]
+    refine ⟨_, rfl, ?_, ?_, ?_⟩
+    · have : v.b.size = v.img.bytes.size := rfl
+      simp only [Array.size_extract]
+      omega
+    · intro i hi
+      have hsz : v.b.size = v.img.bytes.size := rfl
+      simp only [byteAt, Array.getD_eq_getD_getElem?, Array.getElem?_extract]
+      simp only at hi
+      rw [if_pos (by omega)]
+    · unfold parse
+      simp only
+      rw [if_pos hok.2]
+  · intro h
+    unfold View.baseRelocsRef
+    rw [h]
+  · intro size h
+    unfold View.baseRelocsRef
+    rw [h]
+    have : v.slice 0 size 4 = .err .null := (C05_null v size 4).1
+    simp only
+    rw [this]
+
+/-! Instances of `C14_extraction`, all four combinations.  FILES: `relocFile32` / `relocFile64`
+(Lemmas/RelocsFold.lean) — the directory's RVA 0x1000 resolved through the section table to file offset 272 / 288.
+MAPPED images: the PE32 / PE32+ images of Lemmas/DirsExamples.lean with slot 5 set to (100, 12) and a one-block
+directory written at offset 100 — extracted at offset 100 = its RVA.  On each the extracted bytes are well formed by
+the format and the reported entries are the format-side decoding. -/
+section ExtractionExamples
+open Pelite.Pe Pelite.Dirs
+
+def relocPatch (b : Bytes) (slot : Nat) : Bytes :=
+  [(100, 0), (101, 0x10), (102, 0), (103, 0), (104, 12), (105, 0), (106, 0), (107, 0), (108, 4), (109, 0x30), (110, 0), (111, 0),
+    (slot, 100), (slot + 4, 12)].foldl (fun a p => a.set! p.1 p.2) b
+def relocF32 : View := ⟨⟨relocFile32, 0⟩, .pe32, .file, 0x400000⟩
+def relocF64 : View := ⟨⟨relocFile64, 0⟩, .pe64, .file, 0x140000000⟩
+def relocV32 : View := ⟨⟨relocPatch demoBytes 224, 0⟩, .pe32, .view, 0x400000⟩
+def relocV64 : View := ⟨⟨relocPatch demoBytes64 240, 0⟩, .pe64, .view, 0x140000000⟩
+/-- the extracted bytes are well formed by the format, and the entries reported are `want` = the format's decoding -/
+def relocGood (v : View) (want : List (Nat × Nat)) : Bool :=
+  match v.baseRelocsBytes with
+  | .ok data => Spec.wellFormedDir data.toList && flat data == want && flat data == Spec.decodeDir data.toList
+  | _ => false
+
+example :
+    fromBytes .pe32 .file relocF32.img = .ok relocF32 ∧ fromBytes .pe64 .file relocF64.img = .ok relocF64 ∧
+    fromBytes .pe32 .view relocV32.img = .ok relocV32 ∧ fromBytes .pe64 .view relocV64.img = .ok relocV64 := by
+  refine ⟨(fromBytes_ok_iff _ _ _ _).2 ⟨by decide +kernel, ?_⟩, (fromBytes_ok_iff _ _ _ _).2 ⟨by decide +kernel, ?_⟩,
+    (fromBytes_ok_iff _ _ _ _).2 ⟨by decide +kernel, ?_⟩, (fromBytes_ok_iff _ _ _ _).2 ⟨by decide +kernel, ?_⟩⟩
+  · rw [show imageBaseField .pe32 relocF32.img.bytes = 0x400000 by decide +kernel]; rfl
+  · rw [show imageBaseField .pe64 relocF64.img.bytes = 0x140000000 by decide +kernel]; rfl
+  · rw [show imageBaseField .pe32 relocV32.img.bytes = 0x400000 by decide +kernel]; rfl
+  · rw [show imageBaseField .pe64 relocV64.img.bytes = 0x140000000 by decide +kernel]; rfl
+
+example :
+    relocF32.dataDir 5 = some (0x1000, 28) ∧ relocF32.baseRelocsRef = .ok ⟨272, 28, 4⟩ ∧
+    relocGood relocF32 [(0x2004, 3), (0x3008, 10), (0x3010, 3), (0x3fff, 3)] = true ∧
+    relocF64.dataDir 5 = some (0x1000, 28) ∧ relocF64.baseRelocsRef = .ok ⟨288, 28, 4⟩ ∧
+    relocGood relocF64 [(0x2004, 3), (0x3008, 10), (0x3010, 3), (0x3fff, 3)] = true ∧
+    relocV32.dataDir 5 = some (100, 12) ∧ relocV32.baseRelocsRef = .ok ⟨100, 12, 4⟩ ∧
+    relocGood relocV32 [(0x1004, 3)] = true ∧
+    relocV64.dataDir 5 = some (100, 12) ∧ relocV64.baseRelocsRef = .ok ⟨100, 12, 4⟩ ∧
+    relocGood relocV64 [(0x1004, 3)] = true := by
+  decide +kernel
+
+end ExtractionExamples
 
 /-! ### `build`
 
